@@ -54,7 +54,7 @@ class Proof:
         self.expect_loops = expect_loops
         self.cex_for = list(cex_for)  # names of U proofs for which this B proof supplies counterexamples
         self.mem_gb = mem_gb
-        self.no_dfcc = no_dfcc or kind == 'L'
+        self.no_dfcc = no_dfcc or kind == 'L' or (enforce is None and not self.replace)
 
 
 class Native:
